@@ -449,3 +449,13 @@ Proof.
       * apply Wc. lia.
       * intros m Hm. apply Hlow; [lia|]. apply Z.div_lt_upper_bound; lia.
 Qed.
+
+Lemma bv_set_get_lemma : forall b n v, bv_wf b -> 0 <= n -> (v = BV_TRUE \/ v = BV_FALSE) ->
+  exists b', bv_set b n v = Some b' /\ bv_wf b' /\
+             (forall m, 0 <= m -> bv_bit b' m = if m =? n then (v =? BV_TRUE) else bv_bit b m) /\
+             (forall m, 0 <= m -> bv_get b' m = if bv_bit b' m then BV_TRUE else BV_FALSE).
+Proof.
+  intros b n v W Hn Hv. destruct (bv_set_spec b n v W Hn Hv) as (b' & H1 & H2 & H3 & _).
+  exists b'. split; [exact H1|]. split; [exact H2|]. split; [exact H3|].
+  intros m Hm. exact (bv_get_spec b' m H2 Hm).
+Qed.
